@@ -536,7 +536,10 @@ static int file_cb(htp_file_data_t *d) {
     }
     int act = scripted_action(ex, HK_REQUEST_FILE_DATA);
     if (act == CB_REG_TX_HOOKS || act == CB_DESTROY_DONE_TX) act = CB_OK;
-    return apply_action(ex, HK_REQUEST_FILE_DATA, act, nullptr, nullptr);
+    // the file-data hook runs inside the request body-data chain (PUT bodies, multipart file parts): a failure returned here is
+    // a body callback of the in-flight request returning non-OK, and is recorded as such
+    TxRec *fr = nullptr; { ConnState *cs = g_cur_conn; if (cs && cs->connp && cs->connp->in_tx && act != CB_OK) fr = &rec_for(ex, cs->connp->in_tx); }
+    return apply_action(ex, HK_REQUEST_FILE_DATA, act, nullptr, fr);
 }
 
 static int log_cb(htp_log_t *l) {
@@ -1186,7 +1189,7 @@ void execute_plan(const Plan &p, RunResult &R) {
         violate(&ex, p.alloc_fail_at ? "C18" : "C01", strfmt("%s.ubsan.%s@%s", p.alloc_fail_at ? "C18" : "C01", h.kind.c_str(), h.file.c_str()), strfmt("%s:%u", h.file.c_str(), h.line));
     if (g_seams.bad_free && !R.viol.size()) violate(&ex, "C01", "C01.bad_free", strfmt("%llu frees of unknown pointers", (unsigned long long) g_seams.bad_free));
     R.hash = ex.log.h; R.behaviour_sig = ex.beh.h; R.access_checks = g_access_checks; g_access_checks = 0;
-    R.total_allocs = g_seams.n_total; R.alloc_failed = g_seams.failed; R.fail_site = g_seams.first_fail_site;
+    R.total_allocs = g_seams.n_total; R.alloc_failed = g_seams.failed; R.fail_site = g_seams.first_fail_site; R.realloc_ks = g_seams.realloc_ks;
     R.peak_bytes = g_seams.peak_bytes; R.ticks = g_seams.ticks; R.ubsan_benign = g_seams.ubsan_benign;
     R.clock_reads = g_seams.clock_reads; R.clock_faults = g_seams.clock_faults; R.fs_faults = g_seams.fs_faults;
     R.fs_calls = g_seams.n_mkstemp + g_seams.n_write + g_seams.n_close + g_seams.n_unlink;
